@@ -90,7 +90,73 @@ type Node struct {
 	DB        *db.DB
 	Prefix    []byte
 	LongLived bool
-	cur       *diffdb.Database
+	// Tidy: read through TidyReader (closes its pebble iterators) instead of *db.DB directly.
+	Tidy bool
+	cur  *diffdb.Database
+}
+
+// TidyReader is a diffdb.DatabaseReader over the same real pebble instance as a *db.DB.
+// Get and Iterate are the repository's own; IterateRange is re-implemented with identical
+// semantics (inclusive bounds, limit, reverse) but closes the pebble iterator.  Reason:
+// pkg/db's iterateRange never closes the iterator it is given; an unclosed pebble iterator
+// pins the memtable arena (C heap) it was opened on for the life of the process, so a harness
+// that makes millions of range reads over many pebble instances grows by roughly the number
+// of bytes it ever wrote.  Views that should exercise the repository's IterateRange itself
+// leave Tidy false.
+type TidyReader struct{ D *db.DB }
+
+func (t TidyReader) Get(key []byte) ([]byte, bool) { return t.D.Get(key) }
+
+func (t TidyReader) Iterate(prefix []byte, limit int, reverse bool) []db.KeyValue {
+	return t.D.Iterate(prefix, limit, reverse)
+}
+
+func keyUpperBound(b []byte) []byte {
+	end := append([]byte{}, b...)
+	for i := len(end) - 1; i >= 0; i-- {
+		end[i]++
+		if end[i] != 0 {
+			return end[:i+1]
+		}
+	}
+	return nil
+}
+
+func (t TidyReader) IterateRange(start, end []byte, limit int, reverse bool) []db.KeyValue {
+	iter := t.D.VerifPebble().NewIter(nil)
+	defer iter.Close()
+	var out []db.KeyValue
+	take := func() bool {
+		out = append(out, db.NewKeyValue(append([]byte{}, iter.Key()...), append([]byte{}, iter.Value()...)))
+		return limit != -1 && len(out) >= limit
+	}
+	if !reverse {
+		for iter.SeekGE(start); iter.Valid(); iter.Next() {
+			if bytes.Compare(iter.Key(), end) > 0 {
+				break
+			}
+			if take() {
+				break
+			}
+		}
+		return out
+	}
+	ub := keyUpperBound(end)
+	ok := false
+	if ub == nil {
+		ok = iter.Last()
+	} else {
+		ok = iter.SeekLT(ub)
+	}
+	for ; ok && iter.Valid(); ok = iter.Prev() {
+		if bytes.Compare(iter.Key(), start) < 0 {
+			break
+		}
+		if take() {
+			break
+		}
+	}
+	return out
 }
 
 // NewDB opens a fresh in-memory pebble DB.
@@ -129,7 +195,7 @@ func NewNodeOn(d *db.DB, suffix []byte, mod *liskbft.Module, longLived bool) *No
 
 // Fork copies the committed state of n to a new view under another prefix suffix.
 func (n *Node) Fork(suffix []byte) *Node {
-	c := &Node{Mod: n.Mod, DB: n.DB, Prefix: append(StatePrefix(), suffix...), LongLived: n.LongLived}
+	c := &Node{Mod: n.Mod, DB: n.DB, Prefix: append(StatePrefix(), suffix...), LongLived: n.LongLived, Tidy: n.Tidy}
 	b := n.DB.NewBatch()
 	for _, kv := range n.DB.Iterate(n.Prefix, -1, false) {
 		b.Set(append(append([]byte{}, c.Prefix...), kv.Key()[len(n.Prefix):]...), kv.Value())
@@ -176,7 +242,11 @@ func (n *Node) Close() {
 // Store is the working store of the block being processed.
 func (n *Node) Store() *diffdb.Database {
 	if n.cur == nil {
-		n.cur = diffdb.New(n.DB, n.Prefix)
+		if n.Tidy {
+			n.cur = diffdb.New(TidyReader{n.DB}, n.Prefix)
+		} else {
+			n.cur = diffdb.New(n.DB, n.Prefix)
+		}
 	}
 	return n.cur
 }
